@@ -227,7 +227,7 @@ CLIENT_PROPS = {
               "and Cancel item compared; non-trivial = a Cancel was possible (an abandon) or 2+ concurrent calls; distinct by (cfg, steps)"),
         assumptions=CLIENT_ASSUME + ["this check covers the client hop (caller -> wire, request -> cancel); server hop and chains are not yet bound"],
         models=[cmodel("trace", ["M_C18"], MaxInFlight=2)],
-        families=[client_family([cexport("trace", MaxInFlight=2)], 1500, 30000, {"faults": 0})],
+        families=[client_family([cexport("trace", MaxInFlight=2)], 2500, 30000, {"faults": 0, "far": 1})],
         relevant=lambda e: has(e, "Drop", "DropEnter") or count(e, "Call") >= 2,
     ),
 }
@@ -493,6 +493,14 @@ def wire_fixed(kinds):
                 out.append(dict(id="fixed:live:%s:flood" % codec, cfg={"kind": "live", "codec": codec, "items": ["req"] + ["dup"] * 30}, steps=[]))
             for c in ("1m", "3y", "10y", "100y", "10000y", "2p36ms"):
                 out.append(dict(id="fixed:clientdl:%s" % c, cfg={"kind": "clientdl", "dl_class": c}, steps=[]))
+            # old connections: the timer queue's range is measured from its creation when no timer ever fired
+            for age in (70, 300):
+                for codec in ("json", "bincode"):
+                    for it in ("dl-3y", "dl-100y", "dl-u64max", "req"):
+                        out.append(dict(id="fixed:live-aged:%d:%s:%s" % (age, codec, it),
+                                        cfg={"kind": "live", "codec": codec, "items": [it], "age_days": age}, steps=[]))
+                for c in ("3y", "100y"):
+                    out.append(dict(id="fixed:clientdl-aged:%d:%s" % (age, c), cfg={"kind": "clientdl", "dl_class": c, "age_days": age}, steps=[]))
         if "transit" in kinds:
             for codec in ("json", "bincode"):
                 for tr in (0, 1, 7, 5000):
@@ -575,6 +583,8 @@ def glue_to_sched(g, consts):
     variants = ["".join(m["variant"]) for m in ms]
     if any(n in ("new", "serve") for n in names):
         reason = "reserved"
+    elif any(m["argty"] == "ctx" for m in ms):
+        reason = "ctxarg"
     elif len(set(variants)) < len(variants):
         reason = "collision"
     else:
